@@ -197,7 +197,14 @@ def run_history(case):
                      f'transfer failed at t={exc_of[s][1]}'), info)
         if s in exc_of and exc_of[s][1] > t and exc_of[s][1] < t + d:
             info['abandoned_parked'] = True
+    for (a, b, i, am, ns) in spans:
+        pass
     for (t_ret, i, size, t0, ns, had_exc) in reads:
+        if had_exc and (size >= case['threshold']):
+            return (('des:read-succeeded-after-failure',
+                     f'stream {i}: a read of {size} bytes that had to go '
+                     f'through the limiter returned normally although the '
+                     f'transfer had already failed'), info)
         if had_exc and ns > 0:
             return (('des:waited-after-failure',
                      f'stream {i} slept in a read issued after its '
